@@ -33,7 +33,10 @@ EXTENDS Naturals, Sequences, FiniteSets, TLC
 CONSTANTS
   Scens,       \* <<[name, mode, early, procs, nfut, soon]>>; one scenario per behaviour (chosen in Init)
                \*   procs[i] = [role: "top" | "sub", steps: <<[ops: <<[op, arg]>>, end: "stop" | "cont" | "wait"]>>, ctl: SUBSET {"kill","pause"}]
-               \*   op: "aw" f (await external future f) | "launch" c | "soon" k (self.call_soon; k=1 raises) | "nest" q (Q().execute())
+               \*   op (record [op, arg, x]): "aw" f (await external future f) | "launch" c | "nest" q (Q().execute())
+               \*     | "soon" k (self.call_soon(cb); k=1: cb raises; x # 0: cb is a coroutine that awaits future x)
+               \*     | "osoon" X (X.call_soon(cb) on ANOTHER process X, typically the one that launched / executes this one; x as above)
+               \*     | "ofail" X (X.fail(exc, None)) | "okill" X (X.kill()) | "opause" X (X.pause()): control of another process from this step
                \*   soon: processes on which the environment calls call_soon once; early: futures may be completed before they are awaited
   Fixes,       \* repairs the implementation under test contains
   Deviations   \* deviation identifiers of the listed known findings (the as-written clauses that are tolerated)
@@ -79,13 +82,16 @@ Scoped(s, p, Op(_)) == IF InScope THEN Pop(Op(Push(s, p)), p) ELSE Op(s)
 (* tasks                                                                                           *)
 (* ----------------------------------------------------------------------------------------------- *)
 \* loop.create_task(coro): the task's context is a copy of the current one; its first step is scheduled
-NewTask(s, kind, p, arg) ==
+NewTaskF(s, kind, p, arg, f) ==
   LET c == Len(s.ctx) + 1
       t == Len(s.tasks) + 1
   IN [s EXCEPT !.ctx   = Append(@, s.ctx[CurCtx(s)]),
-               !.tasks = Append(@, [kind |-> kind, p |-> p, arg |-> arg, c |-> c, start |-> Get(s), done |-> FALSE]),
+               !.tasks = Append(@, [kind |-> kind, p |-> p, arg |-> arg, c |-> c, start |-> Get(s), done |-> FALSE,
+                                    f |-> f, at |-> "new"]),       \* f, at: the future a coroutine callback awaits / where it is
                !.ready = Append(@, t),
                !.procs = IF kind = "proc" THEN [@ EXCEPT ![p].task = t] ELSE @]
+
+NewTask(s, kind, p, arg) == NewTaskF(s, kind, p, arg, 0)
 
 Wake(s, p) == [s EXCEPT !.ready = Append(@, s.procs[p].task)]        \* future done-callback: task.__wakeup is scheduled
 
@@ -173,6 +179,46 @@ OpenNest(s, p, q) ==
   IN [s1 EXCEPT !.procs[p].at = "nest",
                 !.lv = Append(@, [rem |-> Len(s1.ready), wait |-> q, caller |-> p, saved |-> Get(s)])]
 
+Awaiting(s, p, f) ==
+  LET P == s.procs[p] IN P.at = "aw" /\ Prog(s, p)[P.si].ops[P.oi].op = "aw" /\ Prog(s, p)[P.si].ops[P.oi].arg = f
+
+CbAwaiting(s, t, f) == s.tasks[t].kind = "cb" /\ s.tasks[t].at = "aw" /\ s.tasks[t].f = f
+
+\* (each future of a scenario has one awaiter)
+Complete(s, f) ==
+  LET s1 == [s EXCEPT !.futs[f] = "done"]
+      ws == {p \in 1..Len(s.procs) : Awaiting(s, p, f)}
+      cs == {t \in 1..Len(s.tasks) : CbAwaiting(s, t, f)}
+  IN IF ws # {} THEN Wake(s1, CHOOSE p \in ws : TRUE)
+     ELSE IF cs # {} THEN [s1 EXCEPT !.ready = Append(@, CHOOSE t \in cs : TRUE)]
+     ELSE s1
+
+\* state.interrupt(exc): Running.interrupt does nothing, Waiting.interrupt fails the waiting future
+Interrupt(s, p) ==
+  IF s.procs[p].at = "wf" /\ s.procs[p].wf = "pending" THEN Wake([s EXCEPT !.procs[p].wf = "exc"], p) ELSE s
+
+Kill(s, p) ==
+  LET s1 == [s EXCEPT !.kctl[p] = @ \ {"kill"}]
+  IN IF s.procs[p].stepping THEN Interrupt([s1 EXCEPT !.procs[p].intr = "kill"], p)
+     ELSE TransitionTo(s1, p, "KILLED")
+
+Pause(s, p) ==
+  LET s1 == [s EXCEPT !.kctl[p] = @ \ {"pause"}]
+  IN IF s.procs[p].stepping THEN Interrupt([s1 EXCEPT !.procs[p].intr = "pause"], p)
+     ELSE DoPause(s1, p, "NONE")
+
+\* Process.fail(exc, None): a transition to EXCEPTED in the caller's context (not offered on a terminated process)
+Fail(s, p) == IF s.procs[p].st \in Terminal THEN Bad(s, "fail-on-terminated") ELSE TransitionTo(s, p, "EXCEPTED")
+
+\* kill() / pause() of process p called from another process's step: refused on a terminated process (returns False);
+\* histories that would enter the control protocol's own findings are scenario design errors (WellFormed)
+OtherCtl(s, p, kind) ==
+  LET P == s.procs[p] IN
+  IF P.st \in Terminal THEN s
+  ELSE IF P.st \in Live /\ P.intr = "none" /\ ~P.paused /\ ~(P.at = "wf" /\ P.wf # "pending") /\ P.at \in {"new", "aw", "wf", "nest"}
+       THEN (IF kind = "kill" THEN Kill(s, p) ELSE Pause(s, p))
+       ELSE Bad(s, "unsupported-ctl")
+
 RECURSIVE Go(_, _)
 \* run p's coroutine from where it is until it blocks, opens an inner loop run, or returns
 Go(s, p) ==
@@ -198,22 +244,35 @@ Go(s, p) ==
               (CASE o.op = "aw"     -> IF s.futs[o.arg] = "done" THEN Go(AfterOp(s, p), p)    \* no suspension on a done future
                                        ELSE [s EXCEPT !.procs[p].at = "aw"]
                  [] o.op = "launch" -> Go(AfterOp(Launch(s, o.arg), p), p)
-                 [] o.op = "soon"   -> Go(AfterOp(NewTask(s, "cb", p, o.arg), p), p)         \* self.call_soon(cb)
+                 [] o.op = "soon"   -> Go(AfterOp(NewTaskF(s, "cb", p, o.arg, o.x), p), p)   \* self.call_soon(cb)
+                 [] o.op = "osoon"  -> Go(AfterOp(NewTaskF(s, "cb", o.arg, 0, o.x), p), p)   \* other.call_soon(cb), from p's step
+                 [] o.op = "ofail"  -> Go(AfterOp(Fail(s, o.arg), p), p)                     \* other.fail(exc, None)
+                 [] o.op = "okill"  -> Go(AfterOp(OtherCtl(s, o.arg, "kill"), p), p)         \* other.kill()
+                 [] o.op = "opause" -> Go(AfterOp(OtherCtl(s, o.arg, "pause"), p), p)        \* other.pause()
                  [] o.op = "nest"   -> OpenNest(s, p, o.arg))
     [] P.at \in {"aw", "nest"} -> Go(AfterOp(s, p), p)              \* woken / the inner run returned
     [] P.at = "end" -> s
 
 \* events.ProcessCallback.run -> Process._run_task(callback); a raising callback: callback_excepted -> fail()
-RunCb(s, t) ==
+CbEnd(s, t) ==
   LET T  == s.tasks[t]
-      s1 == Pop(Sample(Push(s, T.p), "cb", T.p, "-"), T.p)
+      s1 == [Pop(s, T.p) EXCEPT !.tasks[t].at = "end"]
   IN IF T.arg = 1 /\ s1.procs[T.p].st \notin Terminal THEN TransitionTo(s1, T.p, "EXCEPTED") ELSE s1
+\* the callback samples on entry and, when it is a coroutine awaiting future f, after that await (still inside _run_task)
+RunCb(s, t) ==
+  LET T == s.tasks[t] IN
+  IF T.at = "new"
+  THEN LET s1 == Sample(Push(s, T.p), "cb", T.p, "-") IN
+       IF T.f = 0 THEN CbEnd(s1, t)
+       ELSE IF s1.futs[T.f] = "pending" THEN [s1 EXCEPT !.tasks[t].at = "aw"]
+       ELSE CbEnd(Sample(s1, "cb.1", T.p, "-"), t)
+  ELSE CbEnd(Sample(s, "cb.1", T.p, "-"), t)
 
 \* the handle returns, unless it sits inside an inner loop run
 Close(s, t) ==
   LET T    == s.tasks[t]
       open == T.kind = "proc" /\ s.procs[T.p].at = "nest"
-      fin  == T.kind = "cb" \/ s.procs[T.p].at = "end"
+      fin  == IF T.kind = "cb" THEN T.at = "end" ELSE s.procs[T.p].at = "end"
   IN IF open THEN s
      ELSE LET s1 == [s EXCEPT !.cur = Front(@)]
           IN IF fin THEN [s1 EXCEPT !.tasks[t].done = TRUE,
@@ -250,28 +309,6 @@ Idle(s) == /\ Mode(s) = "idle" /\ s.ready = <<s.drv>>
 (* ----------------------------------------------------------------------------------------------- *)
 (* environment requests (public calls)                                                             *)
 (* ----------------------------------------------------------------------------------------------- *)
-Awaiting(s, p, f) ==
-  LET P == s.procs[p] IN P.at = "aw" /\ Prog(s, p)[P.si].ops[P.oi].op = "aw" /\ Prog(s, p)[P.si].ops[P.oi].arg = f
-
-Complete(s, f) ==
-  LET s1 == [s EXCEPT !.futs[f] = "done"]
-      ws == {p \in 1..Len(s.procs) : Awaiting(s, p, f)}
-  IN IF ws = {} THEN s1 ELSE Wake(s1, CHOOSE p \in ws : TRUE)
-
-\* state.interrupt(exc): Running.interrupt does nothing, Waiting.interrupt fails the waiting future
-Interrupt(s, p) ==
-  IF s.procs[p].at = "wf" /\ s.procs[p].wf = "pending" THEN Wake([s EXCEPT !.procs[p].wf = "exc"], p) ELSE s
-
-Kill(s, p) ==
-  LET s1 == [s EXCEPT !.kctl[p] = @ \ {"kill"}]
-  IN IF s.procs[p].stepping THEN Interrupt([s1 EXCEPT !.procs[p].intr = "kill"], p)
-     ELSE TransitionTo(s1, p, "KILLED")
-
-Pause(s, p) ==
-  LET s1 == [s EXCEPT !.kctl[p] = @ \ {"pause"}]
-  IN IF s.procs[p].stepping THEN Interrupt([s1 EXCEPT !.procs[p].intr = "pause"], p)
-     ELSE DoPause(s1, p, "NONE")
-
 Resume(s, p) == Wake([s EXCEPT !.procs[p].wf = "result"], p)
 
 CallSoon(s, p) == NewTask([s EXCEPT !.ksoon = @ \ {p}], "cb", p, 0)
@@ -283,7 +320,8 @@ Ctl(s, p, kind) ==
   IN /\ kind \in s.kctl[p] /\ P.st \in Live /\ P.intr = "none" /\ ~P.paused
      /\ ~(P.at = "wf" /\ P.wf # "pending")
      /\ P.at \in {"new", "aw", "wf", "nest"}
-CanComplete(s, f) == s.futs[f] = "pending" /\ (Sc(s).early \/ \E p \in 1..Len(s.procs) : Awaiting(s, p, f))
+CanComplete(s, f) == /\ s.futs[f] = "pending"
+                     /\ (Sc(s).early \/ (\E p \in 1..Len(s.procs) : Awaiting(s, p, f)) \/ (\E t \in 1..Len(s.tasks) : CbAwaiting(s, t, f)))
 CanPlay(s, p)     == s.procs[p].paused
 CanResume(s, p)   == LET P == s.procs[p] IN P.st = "WAITING" /\ P.at = "wf" /\ P.wf = "pending" /\ P.intr = "none" /\ ~P.paused
 CanSoon(s, p)     == p \in s.ksoon /\ s.procs[p].st # "NONE"
@@ -320,7 +358,8 @@ Init0(k) ==
   IN IF sc.mode = "any" THEN s1
      ELSE \* the driver task is created last; the outermost run_until_complete starts its first batch
           LET t == Len(s1.tasks) + 1
-              s2 == [s1 EXCEPT !.tasks = Append(@, [kind |-> "drv", p |-> 0, arg |-> 0, c |-> 2, start |-> <<>>, done |-> FALSE]),
+              s2 == [s1 EXCEPT !.tasks = Append(@, [kind |-> "drv", p |-> 0, arg |-> 0, c |-> 2, start |-> <<>>, done |-> FALSE,
+                                                      f |-> 0, at |-> "new"]),
                                !.ready = Append(@, t), !.drv = t]
           IN [s2 EXCEPT !.lv = <<[rem |-> Len(s2.ready), wait |-> 0, caller |-> 0, saved |-> <<>>]>>]
 
@@ -390,4 +429,5 @@ WellFormed ==
   /\ \A i \in 1..Len(S.ready) : S.ready[i] \in 0..Len(S.tasks)
   /\ \A t \in 1..Len(S.tasks) : S.tasks[t].c \in 1..Len(S.ctx)
   /\ (Mode(S) = "idle" => Len(S.lv) >= 1 /\ Len(S.cur) = Len(S.lv))
+  /\ S.bad \cap {"fail-on-terminated", "unsupported-ctl"} = {}
 =============================================================================
